@@ -68,7 +68,7 @@ def d1_slots(facts, rep):
         ok_e = edges_where(fn, lambda a, truth: truth and fn.strip(a) in to)
         for pos, s, node in fn.stmt_elems(('return',)):
             v = fn.n(fn.strip(node.get('sub', -1)))
-            if v.get('k') == 'var' and v.get('n') == 'i':
+            if v.get('k') == 'var' and 'local' in v:      # a loop index (every local returned here is a claimed slot index)
                 ok, wit = dominated_by_edges(fn, pos, ok_e)
                 rep.ob('D1', 'K4', fn, 'a slot index is returned only when try_occupy succeeded', ok, wit, ln=node['ln'], key_extra=str(node['ln']))
     # pairing
@@ -196,16 +196,15 @@ def d4_isolation(facts, rep):
     for fn in facts.get(R1 + 'arena_slot::get_task_impl'):
         defs = Defs(fn)
         rets = [(p, s, nd) for p, s, nd in fn.stmt_elems(('return',)) if 'sub' in nd and not fn.n(fn.strip(nd['sub'])).get('null')]
-        omit = [(p, s) for p, s, l, r in assignments(fn) if fn.n(fn.strip(l)).get('n') == 'omit' or False]
-        # `omit` is computed from the isolation comparison; non-null returns are on the !omit edge
-        oe = edges_where(fn, lambda a, truth: (not truth) and fn.n(fn.strip(a)).get('k') == 'var' and fn.n(fn.strip(a)).get('n') == 'omit') | \
-            edges_where(fn, lambda a, truth: truth and fn.n(fn.strip(a)).get('k') == 'var' and fn.n(fn.strip(a)).get('n') == 'omit' and False)
+        # the "skip this task" flag is the local initialised from the isolation comparison; non-null returns are on its false edge
+        skip = set()
         src_ok = False
         for pos, s, nd in fn.stmt_elems(('decl',)):
             for v in nd['vars']:
-                if v['n'] == 'omit' and 'init' in v:
-                    t = fn.path(v['init'])
-                    src_ok = t.count('isolation') >= 3
+                if 'init' in v and fn.path(v['init']).count('isolation') >= 3:
+                    skip.add(v['v'])
+                    src_ok = True
+        oe = edges_where(fn, lambda a, truth: (not truth) and fn.n(fn.strip(a)).get('k') == 'var' and fn.n(fn.strip(a)).get('v') in skip)
         ok = bool(rets) and src_ok and all(dominated_by_edges(fn, p, oe)[0] for p, _, _ in rets)
         rep.ob('D4', 'K4', fn, 'a task is taken from the local pool only if it belongs to the current isolation (or none is set)', ok,
                'a thread waiting inside isolate() can run an unrelated task from its own pool')
